@@ -432,6 +432,7 @@ class Region:
         self.loops = []          # [{"iv", "lo", "hi", "cmp"}] of the work-shared loops
         self.func = ""
         self.file = ""
+        self.func_consts = []    # numeric constants of the enclosing function that can act as size thresholds
         self.dist = ["DUnknown"]     # who runs the iterations (Par_Team_Model.dist)
         self.dist_what = ""
 
@@ -1106,6 +1107,34 @@ def cond_thresholds(text):
     return out
 
 
+def numeric_thresholds(text, lo=256, hi=1 << 40):
+    """wave 4: the numeric constants of a piece of source that can act as SIZE thresholds (a reserve() cap, a block size, a branch
+    `n > 4096`): integer literals (decimal, hex, with digit separators / suffixes), integer-valued scientific literals (1e6) and
+    shifts of one (1 << 22, static_cast<size_t>(1) << 22, 1UL << 20).  Returns sorted [[value, text, line]] (line relative to
+    `text`, 1-based), each value once."""
+    text = re.sub(r'"(?:\\.|[^"\\])*"', '""', text)
+    found = {}
+
+    def add(v, m):
+        if lo <= v <= hi and v not in found:
+            found[v] = [v, re.sub(r"\s+", " ", m.group(0)), text.count("\n", 0, m.start()) + 1]
+    for m in re.finditer(r"(?:\b1[uUlL]*|\(\s*1[uUlL]*\s*\))\s*<<\s*(\d+)\b", text):
+        if int(m.group(1)) < 63:
+            add(1 << int(m.group(1)), m)
+    for m in re.finditer(r"\b0[xX]([0-9a-fA-F']+)[uUlL]*\b", text):
+        add(int(m.group(1).replace("'", ""), 16), m)
+    for m in re.finditer(r"(?<![\w.])(\d[\d']*)[uUlL]*\b(?![.xX'])", text):
+        try:
+            add(int(m.group(1).replace("'", "")), m)
+        except ValueError:
+            pass
+    for m in re.finditer(r"(?<![\w.])(\d+)(?:\.(\d*))?[eE]\+?(\d+)[fFlL]?\b", text):
+        mant, frac, ex = m.group(1), m.group(2) or "", int(m.group(3))
+        if ex <= 15 and len(frac) <= ex:
+            add(int(mant + frac) * 10 ** (ex - len(frac)), m)
+    return sorted(found.values())
+
+
 # ----------------------------------------------------------------------------- HLLE expressions
 def parse_hexpr(toks, env):
     """+ - * with the usual precedence over identifiers in env and integer literals"""
@@ -1404,6 +1433,12 @@ def analyse_file(path, rel, macros, variant):
             name = "%s:%s#%d%s" % (rel, fname, counts[fname], variant)
             reg = Region(name, t.line)
             reg.func, reg.file = fname, rel
+            try:
+                l0, l1 = toks[fbrace].line, toks[match_close(toks, fbrace)].line
+                reg.func_consts = [[v, tx, ln + l0 - 1] for v, tx, ln in
+                                   numeric_thresholds("\n".join(text.split("\n")[l0 - 1:l1]))]
+            except Exception:
+                reg.func_consts = []
             clause_private = []
             combined = "for" in words[3:4]
             directive = t.s[len("#pragma "):]
@@ -1633,6 +1668,14 @@ def translate(repo):
                 continue
             seen.add(key)
             keep.append(a)
+        for a in keep:
+            if a["kind"] == "AEscape":
+                sites = sorted({(b["line"], b["what"]) for b in acc if b["var"] == a["var"] and b is not a and
+                                any(("." + m_) in b.get("what", "") for m_ in REALLOC_METHODS)})
+                if sites:
+                    a["what"] += "; other iterations call %s: a reallocation of `%s` invalidates the iterator while it is still in use" % (
+                        ", ".join("%s (line %d)" % (w, ln) for ln, w in sites[:3]), a["var"])
+                    a["escape"]["realloc_sites"] = [list(x) for x in sites[:3]]
         pv = [{"name": n, "class": classify_private(r.events.get(n, [])),
                "events": [[e[0], bool(e[1]), bool(e[2])] for e in r.events.get(n, [])]} for n in r.priv]
         wf = sorted({json.dumps([a["var"], a["crit"], a.get("form", ["whole"])]) for a in acc if a["write"]})
@@ -1642,7 +1685,7 @@ def translate(repo):
                     "write_forms": [json.loads(x) for x in wf], "access_forms": [json.loads(x) for x in af],
                     "file": r.file, "func": r.func, "if": r.if_clause, "if_atoms": cond_atoms(r.if_clause),
                     "if_thresholds": cond_thresholds(r.if_clause), "clauses": [list(c) for c in r.clauses],
-                    "loops": r.loops, "dist": r.dist, "dist_what": r.dist_what})
+                    "loops": r.loops, "dist": r.dist, "dist_what": r.dist_what, "func_consts": r.func_consts})
     return {"regions": out, "hlle": hlle}
 
 
